@@ -280,6 +280,10 @@ impl Compiler {
                 self.emit_opcode(OpCode::ReturnValue);
             }
             Stmt::Break => {
+                // check that we are inside a loop before emitting anything
+                if self.loop_contexts.is_empty() {
+                    return Err(Error::SyntaxError("foutief gebruik van 'stop'".to_string()));
+                }
                 self.emit_opcode(OpCode::Null);
                 let pos = self.instructions.len();
                 self.emit_opcode(OpCode::Jump);
@@ -293,14 +297,14 @@ impl Compiler {
                 ctx.break_instructions.push(pos);
             }
             Stmt::Continue => {
-                self.emit_opcode(OpCode::Null);
-
+                // check that we are inside a loop before emitting anything
                 let pos = match self.loop_contexts.iter().last() {
                     Some(ctx) => Ok(ctx.start),
                     None => Err(Error::SyntaxError(
                         "foutief gebruik van 'volgende'".to_string(),
                     )),
                 }?;
+                self.emit_opcode(OpCode::Null);
                 self.emit_opcode(OpCode::Jump);
                 self.emit_u16(pos.try_into().unwrap());
             }
